@@ -99,6 +99,13 @@ def run(chk, facts, tier, only=None, floor=60):
         n = 0
         for crate, rx in KS:
             b = facts.crate(crate).body(rx)
+            for cb in b.with_closures():
+                for bi, t, cal in cb.call_sites():
+                    if cal and re.search(r"io::Read::(bytes|read|read_to_end|read_to_string|take|chain|read_buf|read_vectored)$", cal) and not cb.is_cleanup(bi):
+                        chk.bad(f"{fn_suffix(b.key)}:short-read-api",
+                                f"{b.key} reads its input with {cal}: unlike read_exact it reports the end of the input as an ordinary outcome (end of "
+                                f"iteration / fewer bytes), so a number whose last byte still has the continuation bit set is accepted instead of rejected",
+                                where=f"{cb.span['file']}:{t.get('ln')}")
             for bi, t, cal in b.call_sites():
                 if cal and cal.endswith("io::Read::read_exact"):
                     n += 1
